@@ -299,6 +299,21 @@ func (r *Request) transferError(err error) {
 	}
 }
 
+// servesPacket reports whether a packet of pkt's type may be served through a handle
+// that was opened with r.Method (reads through read handles, writes through write handles,
+// readdir through directory handles).
+func (r *Request) servesPacket(pkt requestPacket) bool {
+	switch pkt.(type) {
+	case *sshFxpReadPacket:
+		return r.Method == "Get" || r.Method == "Open"
+	case *sshFxpWritePacket:
+		return r.Method == "Put" || r.Method == "Open"
+	case *sshFxpReaddirPacket:
+		return r.Method == "List"
+	}
+	return true
+}
+
 // called from worker to handle packet/request
 func (r *Request) call(handlers Handlers, pkt requestPacket, alloc *allocator, orderID uint32, maxTxPacket uint32) responsePacket {
 	switch r.Method {
